@@ -63,6 +63,27 @@ REG.stub(("method", "Path", "with_suffix"), lambda run, obj, args, kwargs, node:
 REG.stub(("getattr", "Path", "parts"), lambda run, obj, node: Val(PARTS, parts_of(obj.t)))
 
 
+def _last_part(p):
+    ps = parts_of(p)
+    return z3.If(z3.Length(ps) > 0, ps[z3.Length(ps) - 1], z3.StringVal(""))
+
+
+def _stem_of(name):
+    """pathlib's definition: i = name.rfind('.');  name[:i] if 0 < i < len(name) - 1 else name"""
+    i = z3.LastIndexOf(name, z3.StringVal("."))
+    return z3.If(z3.And(0 < i, i < z3.Length(name) - 1), z3.SubString(name, 0, i), name)
+
+
+def _suffix_of(name):
+    i = z3.LastIndexOf(name, z3.StringVal("."))
+    return z3.If(z3.And(0 < i, i < z3.Length(name) - 1), z3.SubString(name, i, z3.Length(name) - i), z3.StringVal(""))
+
+
+REG.stub(("getattr", "Path", "name"), lambda run, obj, node: Val(TStr, _last_part(obj.t)))
+REG.stub(("getattr", "Path", "stem"), lambda run, obj, node: Val(TStr, _stem_of(_last_part(obj.t))))
+REG.stub(("getattr", "Path", "suffix"), lambda run, obj, node: Val(TStr, _suffix_of(_last_part(obj.t))))
+
+
 def _iglob(run, args, kwargs, node):
     """glob.iglob(pattern, recursive=True): the matching paths (as Path-able strings; modelled directly as paths)."""
     pat = run.coerce(args[0], TStr).t
@@ -181,7 +202,7 @@ REG.contract(
 
 ASSUMES = ["A-PY", "A-INST", "A-DJ"]
 NOT_COVERED = [
-    "get_component_files / get_component_dirs / autodiscover loops over settings and apps are not under contract (the `..` filter, each-once across overlapping directories); they are covered only by the BOUNDED stand-in bounded#get_component_files_returns_exactly_the_public_modules (587 trees, sampled: every 7th subset pattern)",
+    "get_component_files / get_component_dirs / autodiscover loops over settings and apps are not under contract (the `..` filter, each-once across overlapping directories); they are covered only by the BOUNDED stand-in bounded#get_component_files_returns_exactly_the_public_modules (620 trees x 2 suffixes, sampled: every 53rd subset pattern of 15 entries)",
     "pathlib / glob are assumed (opaque path values; glob.iglob omits hidden parts and returns paths below the directory); the import system is trusted",
     "os.name == 'nt' branch (PureWindowsPath) is not analysed",
 ]
@@ -201,15 +222,14 @@ def _replay_search_dirs(model, ob):
     root = Path(tempfile.mkdtemp(prefix="djc-verif-c20-", dir=os.environ.get("TMPDIR")))
     try:
         rels = ["a.py", "pkg/b.py", "pkg/__init__.py", "pkg/sub/c.py", "_priv/d.py", "pkg/_priv/e.py", "pkg/_f.py", "_g.py",
-                ".hid/h.py", "pkg/.hid/i.py", "pkg/.j.py", ".k.py", "pkg/sub/.venv/l.py", "pkg/sub/__init__.py", "x.y/m.py", "pkg/n.txt"]
+                ".hid/h.py", "pkg/.hid/i.py", "pkg/.j.py", ".k.py", "pkg/sub/.venv/l.py", "pkg/sub/__init__.py", "x.y/m.py", "pkg/n.txt",
+                "pkg/s.js", "pkg/__init__.js", "pkg/_t.js", "pkg/__init__.txt", "_priv/u.js", "pkg/__init__", "pkg/__init__.py.js", "pkg/v.py.js"]
         for d in ("d1", "d2"):
             for rel in rels:
                 p = root / d / rel
                 p.parent.mkdir(parents=True, exist_ok=True)
                 p.write_text("")
         dirs = [root / "d1", root / "d2"]
-        got = [str(Path(p).relative_to(root)) for p in _search_dirs(dirs, "**/*.py")]
-
         def public(rel):
             parts = Path(rel).parts
             if any(x.startswith(".") for x in parts):
@@ -217,11 +237,15 @@ def _replay_search_dirs(model, ob):
             if any(x.startswith("_") for x in parts[:-1]):
                 return False
             return not parts[-1].startswith("_") or parts[-1] == "__init__.py"
-        want = sorted(f"{d}/{rel}" for d in ("d1", "d2") for rel in rels if rel.endswith(".py") and public(rel))
-        if sorted(got) != want or len(got) != len(set(got)):
-            extra, missing = sorted(set(got) - set(want)), sorted(set(want) - set(got))
-            return {"confirmed": True, "function": "_search_dirs", "inputs": {"tree (per directory)": rels, "search_glob": "**/*.py"},
-                    "expected": f"{len(want)} public files", "observed": f"extra: {extra[:6]} missing: {missing[:6]} duplicates: {len(got) - len(set(got))}"}
+        for suffix in (".py", ".js", ".txt", ""):
+            search_glob = f"**/*{suffix}" if suffix else "**/*"
+            got = [str(Path(p).relative_to(root)) for p in _search_dirs(dirs, search_glob)]
+            got = [g for g in got if (root / g).is_file()]          # `**/*` also yields directories (callers filter them)
+            want = sorted(f"{d}/{rel}" for d in ("d1", "d2") for rel in rels if rel.endswith(suffix) and public(rel))
+            if sorted(got) != want or len(got) != len(set(got)):
+                extra, missing = sorted(set(got) - set(want)), sorted(set(want) - set(got))
+                return {"confirmed": True, "function": "_search_dirs", "inputs": {"tree (per directory)": rels, "search_glob": search_glob},
+                        "expected": f"{len(want)} public files", "observed": f"extra: {extra[:6]} missing: {missing[:6]} duplicates: {len(got) - len(set(got))}"}
     finally:
         shutil.rmtree(root, ignore_errors=True)
     return {"confirmed": False}
@@ -248,4 +272,4 @@ def _bounded_discovery(tier, repo):
 
 
 REG.bounded_check("bounded#get_component_files_returns_exactly_the_public_modules", P, _bounded_discovery,
-                  note="get_component_dirs / get_component_files / the app-dirs loop are not under contract: a real project tree (a COMPONENTS.dirs directory and an installed app's components directory) is populated with 587 subset patterns of 12 entries (nested packages, _ and . prefixed files and directories at every level, __init__.py, non-.py files, a directory name with a dot) and get_component_files('.py') is compared with the property")
+                  note="get_component_dirs / get_component_files / the app-dirs loop are not under contract: a real project tree (a COMPONENTS.dirs directory and an installed app's components directory) is populated with 620 subset patterns of 15 entries (nested packages, _ and . prefixed files and directories at every level, __init__.py, __init__.js, non-.py files, a directory name with a dot) and get_component_files('.py') / get_component_files('.js') are compared with the property")
